@@ -97,6 +97,10 @@ theorem hok_varAssignment (n v : String) (g : Bool) : HOk (varAssignment n v g) 
   unfold varAssignment; exact hok_bind _ _ hok_get (fun _ => hok_addLine _ rfl)
 theorem hok_varEvaluation (n : String) (g : Bool) : HOk (varEvaluation n g) := by
   unfold varEvaluation; exact hok_bind _ _ hok_get (fun _ => hok_pure _)
+theorem hok_varAssignSliceLen (n v : String) (g : Bool) : HOk (varAssignSliceLen n v g) := by
+  unfold varAssignSliceLen; exact hok_bind _ _ hok_get (fun _ => hok_addLine _ rfl)
+theorem hok_varAssignStrLen (n : String) (g : Bool) : HOk (varAssignStrLen n g) := by
+  unfold varAssignStrLen; exact hok_bind _ _ hok_get (fun _ => hok_addLine _ rfl)
 theorem hok_assign_eval (h v : String) : HOk (do varAssignment h v false; varEvaluation h false : BM String) :=
   hok_bind _ _ (hok_varAssignment _ _ _) (fun _ => hok_varEvaluation _ _)
 
@@ -177,7 +181,7 @@ theorem hok_sliceEvaluation (n i : String) : HOk (sliceEvaluation n i) := by
     hok_bind _ _ (hok_addLine _ rfl) (fun _ => hok_varEvaluation _ _)))
 
 theorem hok_sliceLen (n : String) : HOk (sliceLen n) := by
-  unfold sliceLen; exact hok_bind _ _ hok_nextHelperVar (fun _ => hok_assign_eval _ _)
+  unfold sliceLen; exact hok_bind _ _ hok_nextHelperVar (fun _ => hok_bind _ _ (hok_varAssignSliceLen _ _ _) (fun _ => hok_varEvaluation _ _))
 
 /-- `stringSubscript` adds the `_ssh` call first and raises the flag last: shown on the final state -/
 theorem hok_stringSubscript (v a b : String) : HOk (stringSubscript v a b) := by
@@ -193,7 +197,7 @@ theorem hok_stringSubscript (v a b : String) : HOk (stringSubscript v a b) := by
 theorem hok_stringLen (v : String) : HOk (stringLen v) := by
   unfold stringLen
   exact hok_bind _ _ hok_nextHelperVar (fun _ => hok_bind _ _ (hok_varAssignment _ _ _) (fun _ =>
-    hok_bind _ _ hok_get (fun _ => hok_assign_eval _ _)))
+    hok_bind _ _ (hok_varAssignStrLen _ _) (fun _ => hok_varEvaluation _ _)))
 
 theorem hok_copyRets : ∀ (n i : Nat), HOk (copyRets n i) := by
   intro n
